@@ -747,7 +747,7 @@ def compare(ctx, c, route, res, mtext, with_rest, corr="corr:resolve"):
     ic = impl_class(res)
     default_opts = not c.ropts
     if zone in ("Z1", "Z2") and default_opts:
-        key = "cases_inside_agreement_zone" if zone == "Z1" else "cases_inside_agreement_zone_with_references(depth<=32)"
+        key = "cases_inside_agreement_zone" if zone == "Z1" else "cases_inside_agreement_zone_with_references(depth<=16)"
         ctx.notes[key] = ctx.notes.get(key, 0) + 1
         if rd.split("|")[0].replace("R:", "V:", 1) != spec:
             ctx.violation(corr, c.to_json(route), impl=None, model=mtext[:600], signature="C08:model:theorem-C08_factor_zone-contradicted",
